@@ -21,7 +21,8 @@ LEVEL_TEXT = ('Decides that every key the parser reads at each level of the solc
               "nothing but the documented PUSH0 branch can alter an item's name or value between parse and serialise, and "
               'that PUSHLIB values survive renumbering; by abstract evaluation, parse -> serialise is the identity on 17 '
               'kinds of assembly record x PUSH0 flag (C15.b/c) and on 32 contract documents with every combination of '
-              'optional parts (C15.f). It does not decide the numeric reading of constants in the plain-text format.')
+              'optional parts (C15.f). It does not decide the numeric reading of constants in the plain-text format.'
+              ' Added in seeding rounds 7-9: the plain rendering of a block keeps every instruction but the tags and every operand-carrying item shows its operand (C15.g); child assemblies nested in .data round-trip (C15.f).')
 EXPLANATION = ("Levels: instruction item (build_asm_bytecode / AsmBytecode.to_json), contract (build_asm_contract / "
                "AsmContract.to_asm_json / to_json, plus the internal setters/getters), document (parse_asm / "
                "AsmJSON.to_json). Reader and writer key sets must be equal and each item key must travel through the "
